@@ -2,103 +2,400 @@ package main
 
 import (
 	"fmt"
+	"go/types"
+	"math/big"
+	"time"
 
 	"golang.org/x/tools/go/ssa"
 )
 
-// c23IntNoStale: the INTEGER decoders return the encoded value whatever the
-// destination variable held before. asn1Signed writes through the caller's
-// pointer (ReadASN1Int64WithTag hands it over directly), so its final value
-// must not depend on the initial *out: the function is evaluated in Go's
-// fixed-width arithmetic for every length 0..8, content bytes 0x00 / 0x7f /
-// 0x80 / 0xff, and the initial values 0 and -1 (every bit both ways; all
-// operations involved are bit-wise or shifts) — both runs must end with the
-// sign-extended big-endian value. asn1Unsigned accumulates into *out without
-// clearing it, which is correct only because every caller passes a fresh zero
-// variable; that caller contract is checked.
-func c23IntNoStale(c *Ctx) {
-	f := c.fn("cryptobyte", "asn1Signed")
-	if f != nil {
-		outP, nP := f.Params[0], f.Params[1]
-		bad := ""
-		for L := int64(0); L <= 9 && bad == ""; L++ {
-			for _, fill := range []int64{0x00, 0x7f, 0x80, 0xff} {
-				var finals []int64
-				var accepted []bool
-				for _, init := range []int64{0, -1} {
-					w := &pathWalker{env: newEnv(), lengths: true, maxSteps: 4000}
-					w.env.bind(nP, L)
-					w.state = map[string]int64{outP.Name(): init}
-					w.onLoad = func(w *pathWalker, u *ssa.UnOp) (int64, bool) {
-						if ia, ok := u.X.(*ssa.IndexAddr); ok && ia.X == ssa.Value(nP) {
-							return fill, true
-						}
-						return 0, false
-					}
-					end := w.walk(f.Blocks[0], nil)
-					if end != "return" {
-						bad = fmt.Sprintf("length %d: evaluation ended with %s %s", L, end, w.why)
-						break
-					}
-					okv, _ := w.env.eval(retVal(w.last.(*ssa.Return), 0))
-					accepted = append(accepted, okv != 0)
-					finals = append(finals, w.state[outP.Name()])
+// INTEGER / ENUMERATED readers, decided at the reader's own boundary: the
+// reader is evaluated (c23_vm.go) on a DER element whose content runs over a
+// grid, and its verdict, the value it stores and the input it leaves are
+// compared with two's-complement arithmetic done here. Whether the minimality
+// test, the size test, the sign test and the accumulation live in the reader,
+// in checkASN1Integer / asn1Signed / asn1Unsigned, in other helpers, or in a
+// sibling reader that this one delegates to makes no difference.
+
+type c23host struct{ v interface{} } // a library value carried opaquely (time.Time)
+
+// c23timeModel: the four pure functions of package time that the time readers
+// use are answered by the checker's own standard library.
+func c23timeModel(vm *c23vm, callee string, args []c23val) (c23val, bool) {
+	hostTime := func(v c23val) (time.Time, bool) {
+		h, ok := v.(c23host)
+		if !ok {
+			return time.Time{}, false
+		}
+		t, isT := h.v.(time.Time)
+		return t, isT
+	}
+	switch callee {
+	case "time.Parse":
+		layout, ok1 := args[0].(string)
+		value, ok2 := args[1].(string)
+		if !ok1 || !ok2 {
+			return nil, false
+		}
+		t, err := time.Parse(layout, value)
+		ev := c23iface{}
+		if err != nil {
+			ev = c23iface{t: types.Typ[types.String], v: err.Error()}
+		}
+		return []c23val{c23host{t}, ev}, true
+	case "(time.Time).Format":
+		t, ok1 := hostTime(args[0])
+		layout, ok2 := args[1].(string)
+		if !ok1 || !ok2 {
+			return nil, false
+		}
+		return t.Format(layout), true
+	case "(time.Time).Year":
+		if t, ok := hostTime(args[0]); ok {
+			return int64(t.Year()), true
+		}
+	case "(time.Time).AddDate":
+		t, ok := hostTime(args[0])
+		y, ok1 := args[1].(int64)
+		m, ok2 := args[2].(int64)
+		d, ok3 := args[3].(int64)
+		if ok && ok1 && ok2 && ok3 {
+			return c23host{t.AddDate(int(y), int(m), int(d))}, true
+		}
+	}
+	return nil, false
+}
+
+func c23intContents() [][]byte {
+	lead := []byte{0x00, 0x01, 0x7f, 0x80, 0xfe, 0xff}
+	out := [][]byte{{}}
+	for _, b0 := range lead {
+		out = append(out, []byte{b0})
+	}
+	for ln := 2; ln <= 10; ln++ {
+		for _, b0 := range lead {
+			for _, b1 := range lead {
+				fills := []byte{0x00, 0xff, 0xa5}
+				if ln == 2 {
+					fills = fills[:1]
 				}
-				if bad != "" {
+				for _, fl := range fills {
+					ct := make([]byte, ln)
+					for i := range ct {
+						ct[i] = fl
+					}
+					ct[0], ct[1] = b0, b1
+					out = append(out, ct)
+				}
+			}
+		}
+	}
+	return out
+}
+
+func c23intValue(ct []byte) *big.Int {
+	v := new(big.Int).SetBytes(ct)
+	if len(ct) > 0 && ct[0]&0x80 != 0 {
+		v.Sub(v, new(big.Int).Lsh(big.NewInt(1), uint(8*len(ct))))
+	}
+	return v
+}
+
+func c23Integers(c *Ctx) {
+	contents := c23intContents()
+	for _, rd := range []struct {
+		name string
+		tag  byte
+		kind string // destination: "int64", "int", "uint64", "bytes", "big"
+	}{
+		{"(*String).readASN1Int64", 0x02, "int64"},
+		{"(*String).readASN1Uint64", 0x02, "uint64"},
+		{"(*String).ReadASN1Int64WithTag", 0x87, "int64"},
+		{"(*String).ReadASN1Enum", 0x0a, "int"},
+		{"(*String).readASN1Bytes", 0x02, "bytes"},
+		{"(*String).readASN1BigInt", 0x02, "big"},
+	} {
+		f := c.fn(c23pk, rd.name)
+		if f == nil {
+			continue
+		}
+		var badInt, badSib, badRange, stale string
+		undecided := ""
+		run := func(in []byte, init c23val) *c23call {
+			var oi []c23val
+			if init != nil {
+				oi = []c23val{init}
+			}
+			return c23invoke(f, c23input(in, int64(len(in)), 0), oi, int64(rd.tag), false)
+		}
+		outValue := func(r *c23call) (*big.Int, bool) {
+			if rd.kind == "big" {
+				return c23hostBig(c23ptr{cell: r.outs[0]})
+			}
+			v, ok := r.outs[0].v.(int64)
+			if !ok {
+				return nil, false
+			}
+			if rd.kind == "uint64" {
+				return new(big.Int).SetUint64(uint64(v)), true
+			}
+			return big.NewInt(v), true
+		}
+		for _, ct := range contents {
+			in := c23tlv(rd.tag, ct, 0xde, 0xad)
+			desc := fmt.Sprintf("INTEGER content %s", c23hex(ct))
+			valid, why := true, ""
+			switch {
+			case len(ct) == 0:
+				valid, why = false, "an INTEGER has at least one content octet"
+			case len(ct) > 1 && (ct[0] == 0 && ct[1]&0x80 == 0 || ct[0] == 0xff && ct[1]&0x80 != 0):
+				valid, why = false, "the first nine bits are all equal: not the minimal two's-complement encoding"
+			}
+			val := c23intValue(ct)
+			repr := true
+			switch rd.kind {
+			case "int64", "int":
+				repr = val.IsInt64()
+			case "uint64":
+				repr = val.Sign() >= 0 && val.IsUint64()
+			case "bytes":
+				repr = val.Sign() >= 0
+			}
+			r0 := run(in, nil)
+			got, dec := r0.ok()
+			if !dec && r0.end == "panic" {
+				// readers report malformed input by returning false; a panic on
+				// input octets is a defect of the content checks
+				if badInt == "" {
+					badInt = desc + ": " + r0.failure() + " — the content is used without the checks DER decoding requires"
+				}
+				continue
+			}
+			if !dec {
+				undecided = desc + ": " + r0.failure()
+				break
+			}
+			switch {
+			case !valid && got:
+				if badInt == "" {
+					badInt = fmt.Sprintf("%s: accepted, DER requires rejection — %s", desc, why)
+				}
+			case valid && got && !repr:
+				if badRange == "" {
+					badRange = fmt.Sprintf("%s (%d octets, value %s): accepted, but the destination type (%s) cannot represent it", desc, len(ct), val, rd.kind)
+				}
+			case valid && !got && repr:
+				if badRange == "" {
+					badRange = fmt.Sprintf("%s (value %s): rejected, but it is a DER INTEGER that the destination type (%s) represents", desc, val, rd.kind)
+				}
+			case got:
+				switch rd.kind {
+				case "int64", "int", "uint64", "big":
+					if v, ok := outValue(r0); !ok || v.Cmp(val) != 0 {
+						if badRange == "" {
+							badRange = fmt.Sprintf("%s: decoded as %v, the encoded value is %s", desc, v, val)
+						}
+					}
+				case "bytes":
+					wo, wn := int64(2), int64(len(ct))
+					if len(ct) > 1 && ct[0] == 0 {
+						wo, wn = 3, wn-1
+					}
+					if o, n, ok := r0.outSlice(0); !ok || o != wo || n != wn {
+						if badRange == "" {
+							badRange = fmt.Sprintf("%s: returned input[%d:%d], the magnitude without leading zero octets is input[%d:%d]", desc, o, o+n, wo, wo+wn)
+						}
+					}
+				}
+				if o, n, ok := r0.rest(); !ok || n != 2 || o != int64(len(in))-2 {
+					if badSib == "" {
+						badSib = fmt.Sprintf("%s: %d octets remain after the read, 2 follow the element", desc, n)
+					}
+				}
+			}
+			// independence of the destination's previous content
+			var init c23val = int64(-1)
+			switch rd.kind {
+			case "bytes":
+				init = c23input([]byte{1, 2, 3}, 3, 0)
+			case "big":
+				init = c23host{big.NewInt(-1)}
+			}
+			r1 := run(in, init)
+			got1, dec1 := r1.ok()
+			if !dec1 {
+				undecided = desc + ": " + r1.failure()
+				break
+			}
+			if stale == "" {
+				if got1 != got {
+					stale = fmt.Sprintf("%s: accepted=%v when the destination held zero, %v when it held all-ones — the verdict depends on what the variable contained before", desc, got, got1)
+				} else if got && rd.kind != "bytes" {
+					v0, _ := outValue(r0)
+					v1, ok1 := outValue(r1)
+					if !ok1 || v0 == nil || v0.Cmp(v1) != 0 {
+						stale = fmt.Sprintf("%s: result %v when the destination held 0, %v when it held all-ones; the encoded value is %s — the result depends on what the variable contained before", desc, v0, v1, val)
+					}
+				} else if got {
+					o0, n0, _ := r0.outSlice(0)
+					o1, n1, ok1 := r1.outSlice(0)
+					if !ok1 || o0 != o1 || n0 != n1 {
+						stale = desc + ": the returned octets depend on what the destination contained before"
+					}
+				}
+			}
+		}
+		// the element read itself fails: no success
+		if undecided == "" {
+			good := []byte{0x05}
+			for _, e := range []struct {
+				in   []byte
+				what string
+			}{
+				{nil, "empty input"},
+				{[]byte{rd.tag}, "identifier octet only"},
+				{c23tlv(rd.tag^0x01, good), "another identifier octet"},
+				{c23tlv(rd.tag^0x20, good), "the constructed/primitive bit flipped"},
+				{[]byte{rd.tag, 0x03, 0x01, 0x02}, "content truncated (length 3, 2 octets present)"},
+				{[]byte{rd.tag, 0x81, 0x01, 0x05}, "long-form length for a 1-octet content"},
+				{[]byte{rd.tag, 0x80, 0x05, 0x00, 0x00}, "indefinite length"},
+			} {
+				r := run(e.in, nil)
+				got, dec := r.ok()
+				if !dec {
+					undecided = e.what + ": " + r.failure()
 					break
 				}
-				if accepted[0] != (L <= 8) || accepted[1] != accepted[0] {
-					bad = fmt.Sprintf("length %d: accepted=%v", L, accepted)
-					break
-				}
-				if !accepted[0] {
-					continue
-				}
-				// expected value: sign-extended big-endian
-				var want int64
-				for i := int64(0); i < L; i++ {
-					want = want<<8 | fill
-				}
-				if L > 0 && L < 8 && fill&0x80 != 0 {
-					want |= -1 << uint(8*L)
-				}
-				if finals[0] != finals[1] || finals[0] != want {
-					bad = fmt.Sprintf("%d content bytes of %#02x: result %d when the destination held 0, %d when it held -1; the encoded value is %d — the result depends on what the variable contained before", L, fill, finals[0], finals[1], want)
+				if got && badSib == "" {
+					badSib = fmt.Sprintf("input %s (%s): success reported although no DER element with the expected tag can be read", c23hex(e.in), e.what)
 				}
 			}
 		}
-		c.check(bad == "", "C23.int-no-stale", "asn1Signed result is independent of the destination's previous content", f, "lengths 0..9 x content {00,7f,80,ff} x initial {0,-1}: always the sign-extended value", bad)
+		if undecided != "" {
+			c.undecided("C23.integer", rd.name, f, undecided)
+			continue
+		}
+		c.check(badInt == "", "C23.integer", rd.name, f, fmt.Sprintf("accepts only non-empty minimal two's-complement contents (%d contents)", len(contents)), badInt)
+		c.check(badSib == "", "C23.integer-siblings", rd.name, f, "no success unless a DER element with the expected tag was read; the input advances past exactly that element", badSib)
+		c.check(badRange == "", "C23.int-range", rd.name, f, fmt.Sprintf("accepts exactly the values %s represents and returns the encoded value", rd.kind), badRange)
+		switch {
+		case stale == "":
+			c.ok("C23.int-no-stale", rd.name, f, "verdict and value are the same whether the destination held zero or all-ones before")
+		case f.Object() != nil && f.Object().Exported():
+			c.fail("C23.int-no-stale", rd.name, f, stale)
+		default:
+			// an unexported reader may accumulate into *out if every caller hands
+			// it a fresh zero variable
+			n, why := c23FreshZeroCallers(c, f)
+			c.check(why == "" && n >= 1, "C23.int-no-stale", rd.name, f,
+				fmt.Sprintf("accumulates into the destination; all %d static caller(s) pass a new zero local", n),
+				stale+"; and "+why)
+		}
 	}
-	// asn1Unsigned: callers pass a fresh zero variable
-	if g := c.fn("cryptobyte", "(*String).readASN1Uint64"); g != nil {
-		okFwd := false
-		for _, ci := range callsNamed(g, "cryptobyte.asn1Unsigned") {
-			if ci.Common().Args[0] == ssa.Value(g.Params[1]) {
-				okFwd = true
-			}
+}
+
+// c23FreshZeroCallers: every static call of f in the module passes, for f's
+// destination (first pointer parameter after the receiver), the address of a
+// local variable that still holds its zero value: no store of anything but a
+// zero constant and no other use of its address can reach the call, and the
+// call cannot be reached again without the variable being re-created.
+func c23FreshZeroCallers(c *Ctx, f *ssa.Function) (n int, why string) {
+	idx := -1
+	for i, p := range f.Params {
+		if i == 0 {
+			continue
 		}
-		okCallers := true
-		n := 0
-		for _, fn := range c.funcsOfPkg("cryptobyte") {
-			for _, ci := range callsNamed(fn, "(*cryptobyte.String).readASN1Uint64") {
-				n++
-				al, isA := ci.Common().Args[1].(*ssa.Alloc)
-				if !isA {
-					okCallers = false
-					continue
+		if _, isP := p.Type().Underlying().(*types.Pointer); isP {
+			idx = i
+			break
+		}
+	}
+	if idx < 0 {
+		return 0, "no destination parameter"
+	}
+	return c23freshZeroParam(c, f, idx, 0)
+}
+
+// c23freshZeroParam: the contract for parameter idx of f. A caller that merely
+// forwards its own pointer parameter (an unexported helper in between) is
+// accepted when the same contract holds for that parameter at ITS callers.
+func c23freshZeroParam(c *Ctx, f *ssa.Function, idx int, depth int) (n int, why string) {
+	if depth > 3 {
+		return 0, "forwarding chain too deep"
+	}
+	sites := c.callersOf(f)
+	if len(sites) == 0 {
+		return 0, "no static caller of " + f.Name() + " found"
+	}
+	for _, ci := range sites {
+		n++
+		where := ci.Parent().Name()
+		if idx >= len(ci.Common().Args) {
+			return n, "caller " + where + " passes no destination"
+		}
+		var al interface {
+			ssa.Value
+			Referrers() *[]ssa.Instruction
+		}
+		var alBlock *ssa.BasicBlock
+		switch a := ci.Common().Args[idx].(type) {
+		case *ssa.Alloc:
+			al, alBlock = a, a.Block()
+		case *ssa.Parameter:
+			g := ci.Parent()
+			if g.Object() == nil || g.Object().Exported() {
+				return n, "caller " + where + " forwards a destination it received from callers outside the package"
+			}
+			pi := -1
+			for i, p := range g.Params {
+				if p == a {
+					pi = i
 				}
-				// no store into the local before the call
-				for _, ref := range *al.Referrers() {
-					if st, isS := ref.(*ssa.Store); isS && st.Addr == ssa.Value(al) {
-						if st.Block() == ci.Block() && precedes(st, ci) || st.Block() != ci.Block() && st.Block().Dominates(ci.Block()) {
-							if k, isK := constInt(st.Val); !isK || k != 0 {
-								okCallers = false
-							}
-						}
+			}
+			if _, w := c23freshZeroParam(c, g, pi, depth+1); pi < 0 || w != "" {
+				return n, "caller " + where + " forwards its own parameter: " + w
+			}
+			al, alBlock = a, g.Blocks[0]
+		default:
+			return n, "caller " + where + " passes a destination that is not a new local variable"
+		}
+		for _, ref := range *al.Referrers() {
+			if ref == ssa.Instruction(ci) {
+				continue
+			}
+			before := ref.Block() == ci.Block() && precedes(ref, ci) || ref.Block() != ci.Block() && reach([]*ssa.BasicBlock{ref.Block()}, nil)[ci.Block()]
+			if !before {
+				continue
+			}
+			switch x := ref.(type) {
+			case *ssa.Store:
+				if x.Addr == ssa.Value(al) {
+					if k, isK := constInt(x.Val); !isK || k != 0 {
+						return n, "caller " + where + " stores into the destination before the call"
 					}
 				}
+			case *ssa.UnOp, *ssa.DebugRef:
+			default:
+				return n, "caller " + where + " hands the destination's address elsewhere before the call"
 			}
 		}
-		c.check(okFwd && okCallers && n >= 1, "C23.int-no-stale", "asn1Unsigned accumulates into a fresh zero variable", g, fmt.Sprintf("%d caller(s) pass a new local", n), "asn1Unsigned ORs into *out without clearing it and a caller can pass a variable that is not a fresh zero local")
+		// a loop around the call that does not re-create the variable
+		if alBlock != ci.Block() {
+			seen := map[*ssa.BasicBlock]bool{alBlock: true}
+			work := append([]*ssa.BasicBlock(nil), ci.Block().Succs...)
+			for len(work) > 0 {
+				b := work[len(work)-1]
+				work = work[:len(work)-1]
+				if b == ci.Block() {
+					return n, "caller " + where + " can repeat the call with the same variable"
+				}
+				if seen[b] {
+					continue
+				}
+				seen[b] = true
+				work = append(work, b.Succs...)
+			}
+		}
 	}
+	return n, ""
 }
